@@ -291,6 +291,39 @@ def case_hidden(rng):
     return p.lines() + history_mixed(rng, p), meta
 
 
+def case_hidden_polluted(rng):
+    """C05: a hidden read directly after a legitimate reachability query that ended early: task A requires several tasks
+    (one of them leads to the generator of g, others lead to the generator V of h) and reads g; then task B reads h without
+    requiring V.  Whatever the first query left behind (scratch space, caches) must not make the second one positive."""
+    g, h = rng.choice([10, 110]), rng.choice([20, 120])
+    src = rng.choice([1, 101])
+    # ids: B=1, A=2, siblings 3.., M, W, V last
+    nsib = rng.randint(1, 3)
+    sib = list(range(3, 3 + nsib))
+    M, W, V = 3 + nsib, 4 + nsib, 5 + nsib
+    lines = [f"task {V} read {src} 0 write {h} 0 some + v 0 k 1 ret k 1",
+             f"task {W} read {src} 0 write {g} 0 some v 0 ret k 2",
+             f"task {M} req {W} {rng.choice([0, 4])} ret v 0"]
+    for x in sib:
+        lines.append(f"task {x} req {V} {rng.choice([0, 4])} ret + v 0 k {x}" if rng.random() < 0.8 else f"task {x} read {src} 0 ret v 0")
+    reqs = sib + [M]
+    rng.shuffle(reqs)
+    if rng.random() < 0.5: reqs = [x for x in reqs if x != M] + [M]          # generator path last = searched first
+    body = " ".join(f"req {x} 0" for x in reqs)
+    lines.append(f"task 2 {body} read {g} 0 ret v {len(reqs)}")
+    pre = rng.choice(["", f"req {rng.choice(sib)} 4 ", f"read {src} 0 "])
+    lines.append(f"task 1 {pre}read {h} 0 ret k 0")
+    hist = [f"set {src} {rng.randint(0, 3)}"]
+    order = rng.choice([[2, 1], [V, 2, 1], [2, V, 1], [1, 2]])
+    if rng.random() < 0.6:
+        hist += ["session"] + [f"req {t}" for t in order] + ["endsession", "cleannodes"]
+    else:
+        for t in order: hist += ["session", f"req {t}", "endsession", "cleannodes"]
+    if rng.random() < 0.5:
+        hist += [f"set {src} {rng.randint(4, 6)}", "session"] + ([f"bu {src}"] if rng.random() < 0.5 else []) + ["req 2", "req 1", "endsession", "cleannodes"]
+    return sorted(lines, key=lambda l: int(l.split()[1])) + hist, dict(injected="task 1 reads a generated resource without requiring its generator, right after a legitimate query", uses_wrote=False)
+
+
 def case_overlap(rng):
     """C06: a second writer of a generated resource."""
     while True:
